@@ -12,6 +12,8 @@ if args and args[0] == '--shard':   # --shard k/n: the properties with index % n
     k, n = args[1].split('/'); shard = (int(k), int(n)); args = args[2:]
 only = args
 if shard: WT = WT + str(shard[0])
+# two invocations at the same time (one of them in a `vp run` snapshot) must not share a scratch checkout
+WT = WT + '_' + str(os.getpid())
 sh('git', '-C', '/repo', 'worktree', 'remove', '--force', WT); sh('rm', '-rf', WT)
 assert sh('git', '-C', '/repo', 'worktree', 'add', WT, 'HEAD').returncode == 0
 sh('cp', '/repo/Cargo.lock', WT + '/Cargo.lock')
